@@ -122,6 +122,13 @@ def check(rep, tier, seed):
             continue
         n += 1
         relay = relays[0]
+        # one request, one upstream send: the obligations below are about THE relayed request; a second send on the same path (a resend
+        # over another connection, a copy taken at some earlier point) would put a request on the wire that they do not cover
+        ups = p.upstream_sends
+        if len(ups) != 1:
+            violated(rep, "path %d: the request is sent upstream exactly once" % p.i, "C05.one-relay", "upstream sends on this path: %s" % [e.callee for e in ups], p)
+        else:
+            rep.add(Query("path %d: the request is sent upstream exactly once" % p.i, "holds", "", 0, "mirsym", key="C05.one-relay"))
         ri = p.index(relay)
         pre = p.events[:ri]
         au = p.first(r"(^|::)authorize$", ("call",))
